@@ -5,6 +5,7 @@
 import Proofs.Lemmas.AoefC02Keys
 import Proofs.Lemmas.AoefC02Reach
 import Proofs.Lemmas.AoefC02Closed
+import Proofs.C02Adapter
 namespace SE.Proofs.C02
 open SE SE.Paths SE.Aoef
 
